@@ -252,6 +252,8 @@ func runC09R2(c *Ctx) {
 			"nextAddresses is called from a function other than the two exported issuers: a new issuing path that the lockset rule does not see")
 	}
 	c.Floor("C09-R3", "callers of nextAddresses", len(refs), 2)
+	// "afterwards the database agrees with memory": a reloaded account starts from the persisted indices of the same branch
+	checkLoaderCopies(c, "C09-R2")
 }
 
 func isIndexMirror(field string) bool {
